@@ -28,7 +28,7 @@ def stable_key(name):
 
 def load_contracts(src):
     import contracts.streams, contracts.binary, contracts.classes, contracts.prims, contracts.oracles, contracts.tables, contracts.bitstream  # noqa
-    for mod in ('wrappers', 'adapters', 'lazy', 'exprs', 'containers', 'codegen', 'ksy', 'lemmas', 'entry'):
+    for mod in ('wrappers', 'adapters', 'transforms', 'lazy', 'exprs', 'containers', 'codegen', 'ksy', 'lemmas', 'entry'):
         try:
             __import__('contracts.' + mod)
         except ModuleNotFoundError as e:
@@ -173,6 +173,7 @@ def run(pid, tier, seed, a, t0):
     import contracts.ghostreg as ghostreg
     gjobs, gobs = [], {}
     ts = time.time()
+    contract.USE_LOG.clear()
     for spec in ghostreg.PROGRAMS:
         if pid not in spec['tags']:
             continue
@@ -202,6 +203,24 @@ def run(pid, tier, seed, a, t0):
             gobs[key].result = solved[key]
             gobs[key].text = text
             all_results.append(gobs[key])
+    # ---- supporting contracts: a ghost proof is a proof over the contracts it applies; those contracts (and, transitively,
+    # the contracts THEY apply) must hold of the code.  Their functional clauses are verified here as part of this property.
+    if P.get('closure_tags'):
+        done = set(fun_quals) if P.get('functional', True) else set()
+        pending = {q for q in contract.USE_LOG if q in contract.REGISTRY and contract.REGISTRY[q].setup is not None and not contract.REGISTRY[q].generic} - done
+        while pending:
+            contract.USE_LOG.clear()
+            qs = sorted(pending)
+            res, oor, stats = driver.verify_functions(src, qs, tags=list(P['closure_tags']) + [pid], interface_factory=ConstructInterface, timeout=timeout, tier=tier)
+            for r in res:
+                r.support = pid not in (r.ob.tags or ())
+            all_results += res
+            oor_all += oor
+            functions_under_contract += ['%s (supporting contract)' % q for q in qs]
+            for k in stats_all:
+                stats_all[k] += stats.get(k, 0)
+            done |= pending
+            pending = {q for q in contract.USE_LOG if q in contract.REGISTRY and contract.REGISTRY[q].setup is not None and not contract.REGISTRY[q].generic} - done
     # ---- Layer B: lemmas
     lemma_results = []
     jobs = []
@@ -282,6 +301,8 @@ def conclude(pid, P, tier, seed, a, t0, src, results, oor, stats, functions, ext
     replay_dir = os.path.join(os.environ.get('PYVC_OUT', ROOT), 'replay', pid)
     C = None
 
+    _cache = {}
+
     def native(r, vals):
         """-> (confirmed, detail) using the function's native oracle"""
         nonlocal C
@@ -291,6 +312,28 @@ def conclude(pid, P, tier, seed, a, t0, src, results, oor, stats, functions, ext
                 C = replay.import_repo()
             except Exception as e:  # the tree under verification does not even import
                 return True, {'input': 'import construct', 'observed': 'importing the package raises %s: %s' % (type(e).__name__, e), 'source': 'import'}
+        if pid in ('C01', 'C02'):
+            # round-trip properties: the witness is a value whose built bytes do not parse back to it
+            from contracts import rtbattery
+            if 'rt' not in _cache:
+                try:
+                    _cache['rt'] = rtbattery.run(C)
+                except Exception as e:
+                    _cache['rt'] = (0, [])
+            n, fails = _cache['rt']
+            if fails:
+                return True, {'input': fails[0], 'observed': '%d of %d directed round trips fail on the real code' % (len(fails), n), 'more': fails[1:6],
+                              'source': 'native round-trip battery after failed obligation'}
+            if getattr(r, 'support', False):
+                return None, 'supporting contract no longer holds, but %d directed round trips all succeed on the real code' % n
+        if 'scope' in r.name.rsplit('/', 1)[-1]:
+            from contracts import scopecheck
+            try:
+                w = scopecheck.search(C, r.qual)
+            except Exception as e:
+                w = None
+            if w:
+                return True, {'input': w, 'observed': 'scope clause false on the real code', 'source': 'native scope probe after failed obligation'}
         if o is None:
             # no hand-written reference: evaluate the function's own contract natively on the real code (stub sub-constructs
             # taken from the real library), searching for an input on which a clause is false
@@ -357,6 +400,10 @@ def conclude(pid, P, tier, seed, a, t0, src, results, oor, stats, functions, ext
             handled.add(key)
             if ok:
                 violations.append('VIOLATION property=%s replay=%s obligation=%s' % (pid, fn, r.name))
+            elif getattr(r, 'support', False):
+                # a supporting contract (stated for another property) fails but no input violating THIS property was found:
+                # the proof of this property is void, the property itself is not refuted
+                undecided.append('UNDECIDED property=%s supporting obligation %s no longer holds (%s); see %s' % (pid, r.name, detail, fn))
             else:
                 violations.append('VIOLATION property=%s replay=%s obligation=%s no-failing-input-found' % (pid, fn, r.name))
         else:
